@@ -17,6 +17,22 @@ recognisers of mc/ref/formats.py (ipv4, ipv6, date, email; one-sided for
 idn-email: no '@' => reject), `re.compile` for regex; for every pair:
 conforms() returns a bool, agrees with check(), and nothing but FormatError
 comes out of check().
+
+Two more spaces, both about "for every string whatsoever":
+
+  strsub      every seed as an instance of a str subclass (still a string: same
+              oracle, same demands)
+  interleave  the answer for a string must not depend on what any checker object
+              was asked before: per registered name, a custom checker whose
+              function accepts everything, a custom one that rejects everything
+              and two (thorough: all) stock checker objects that know the name;
+              every sequence of 3 (thorough: also 4 on two stock objects)
+              operations (object, conforming / non-conforming string), each leaf
+              sequence in its own forked child of a fresh interpreter
+              (mc/explore/isolated.py); after every step the stock objects are
+              compared with the grammar oracle (or, for the oracle-less
+              families, with their registered function called directly) and the
+              custom ones with their own functions
 """
 import itertools
 import re
@@ -26,6 +42,7 @@ import jsonschema
 from jsonschema import FormatChecker
 from jsonschema.exceptions import FormatError
 
+from mc.explore import isolated
 from mc.ref import formats as F
 
 ID = "C13"
@@ -443,6 +460,151 @@ def run_strings(strings, fam, edit_space):
 
 
 # ----------------------------------------------------------------------------
+# str-subclass instances of the seeds
+# ----------------------------------------------------------------------------
+
+
+class StrSub(str):
+    """An instance of a str subclass is a string."""
+
+
+def run_strsub(fam):
+    mine = [t for t in TARGETS if space_family(t.fam) == fam]
+    reps = [t for t in TARGETS if space_family(t.fam) != fam and t.rep]
+    ev = nt = nviol = 0
+    outcomes, viol, seen = {}, [], {}
+    for s in seeds_of(fam):
+        for t in mine + reps:
+            ev += 1
+            oc, kind = judge(t, StrSub(s))
+            plain, plain_kind = judge(t, s)
+            if kind is None and oc != plain:
+                kind = "str-subclass-%s-but-str-%s" % (oc, plain)       # the same characters, another answer
+            if t in mine:
+                nt += 1
+            key = t.fam + ":strsub:" + oc
+            outcomes[key] = outcomes.get(key, 0) + 1
+            if kind is not None:
+                nviol += 1
+                if kind == plain_kind:      # the plain string fails in the same way: nothing particular to the subclass
+                    sig = signature(t, s, kind)
+                else:
+                    sig = "C13|%s|%s|str-subclass" % (t.fam, kind)
+                n = seen.get(sig, 0)
+                seen[sig] = n + 1
+                if n < 2:
+                    c, b = observe(t, StrSub(s))
+                    viol.append({"signature": sig, "size": len(s),
+                                 "case": {"checker": t.label, "format": t.name, "string": s, "kind": kind,
+                                          "as": "str-subclass"},
+                                 "detail": {"check": c, "conforms": b if isinstance(b, (bool, str)) else repr(b),
+                                            "oracle": None if t.oracle is None else t.oracle(s),
+                                            "plain_str_outcome": plain}})
+    return {"evaluations": ev, "nontrivial": nt, "violations": viol, "samples": [], "outcomes": outcomes,
+            "counters": {"strings": len(seeds_of(fam)), "violating_observations": nviol}}
+
+
+# ----------------------------------------------------------------------------
+# several checker objects, interleaved (executed in the nursery)
+# ----------------------------------------------------------------------------
+
+IL_NAMES = sorted({t.name for t in TARGETS})
+
+
+def direct(func, raises, s):
+    """What a registration (function, raises) says about s, by calling the function."""
+    try:
+        r = func(s)
+    except raises:
+        return False
+    return bool(r)
+
+
+def il_truth(name, s):
+    """Is s in the language of the stock format `name`?  The grammar oracle where there is one."""
+    t = next(t for t in TARGETS if t.name == name)
+    if t.oracle is not None and t.oracle(s) is not None:
+        return t.oracle(s)
+    func, raises = t.chk.checkers[name]
+    return direct(func, raises, s)
+
+
+def il_strings(name):
+    """[a conforming seed, a non-conforming seed] of the name's family."""
+    seeds = seeds_of(space_family(family_of(name)))
+    seeds = [s for s in seeds if not s.startswith("0000-")]        # not the open year-0000 finding
+    yes = [s for s in seeds if il_truth(name, s)]
+    no = [s for s in seeds if not il_truth(name, s)]
+    return [yes[0] if yes else seeds[0], no[0] if no else seeds[-1]]
+
+
+def il_objects(name, nstock):
+    stock = [t.label for t in TARGETS if t.name == name]
+    if nstock and len(stock) > nstock:
+        stock = stock[:nstock - 1] + stock[-1:]
+    return ["lax", "strict"] + stock
+
+
+class Interleaved(object):
+    def __init__(self, name, nstock):
+        self.name, self.strings = name, il_strings(name)
+        self.targets = {}
+        for label in il_objects(name, nstock):
+            t = Target()
+            t.label, t.name, t.fam, t.rep = label, name, family_of(name), False
+            if label in ("lax", "strict"):
+                t.chk = FormatChecker(formats=())
+                t.chk.checks(name)((lambda x: True) if label == "lax" else (lambda x: False))
+                t.oracle = (lambda s: True) if label == "lax" else (lambda s: False)
+            else:
+                t.chk = next(u.chk for u in TARGETS if u.label == label and u.name == name)
+                t.oracle = lambda s, name=name: il_truth(name, s)
+            self.targets[label] = t
+
+    def apply(self, op):
+        t, s = self.targets[op[0]], self.strings[op[1]]
+        oc, kind = judge(t, s)
+        who = op[0] if op[0] in ("lax", "strict") else "stock"
+        bad = None
+        if kind is not None:
+            # the family is in the case, not in the signature: state shared between objects hits every family alike
+            bad = ["after-other-checkers|%s|%s" % (who, kind),
+                   {"object": op[0], "format": self.name, "string": s, "own_function_or_grammar_says": t.oracle(s),
+                    "observed": oc}]
+        return ["%s:interleave:%s:%s" % (t.fam, who, oc), oc, bad]
+
+
+def run_interleaved(name, nstock, ops):
+    return isolated.run_steps(lambda: Interleaved(name, nstock), ops, "after-other-checkers")
+
+
+def nursery_interleave(arg):
+    name, nstock, depth = arg["name"], arg["nstock"], arg["depth"]
+    ops = [[label, i] for label in il_objects(name, nstock) for i in (0, 1)]
+    leaves = [list(t) for t in itertools.product(ops, repeat=depth)]
+    return isolated.explore(leaves, lambda h: run_interleaved(name, nstock, h))
+
+
+def run_interleave_unit(unit):
+    _, name, nstock, depth = unit
+    res = isolated.run("mc.props.c13", "nursery_interleave", {"name": name, "nstock": nstock, "depth": depth})
+    viol, seen = [], {}
+    for v in sorted(res["violations"], key=lambda v: (len(v["ops"]), repr(v["ops"]))):
+        sig = "C13|" + v["bad"][0]
+        n = seen.get(sig, 0)
+        seen[sig] = n + 1
+        if n < 2:
+            viol.append({"signature": sig, "size": len(v["ops"]),
+                         "case": {"interleave": name, "stock_objects": nstock, "ops": v["ops"]}, "detail": v["bad"][1]})
+    samples = [{"interleave": name, "objects": il_objects(name, nstock), "strings": il_strings(name),
+                "leaves": res["leaves"]}] if name == IL_NAMES[0] else []
+    return {"evaluations": res["histories"], "nontrivial": res["histories"], "violations": viol, "samples": samples,
+            "outcomes": res["outcomes"],
+            "counters": {"interleaved_histories": res["histories"], "leaf_histories_each_in_its_own_process": res["leaves"],
+                         "violating_observations": sum(seen.values())}}
+
+
+# ----------------------------------------------------------------------------
 # protocol
 # ----------------------------------------------------------------------------
 
@@ -473,6 +635,16 @@ def plan(ctx):
         if ctx.thorough:
             for b in range(E2_BUCKETS):
                 units.append((fam, "edit2", b))
+        units.append((fam, "strsub", 0))
+    il = [(0, 3), (2, 4)] if ctx.thorough else [(2, 3)]
+    for name in IL_NAMES:
+        for nstock, depth in il:
+            units.append(("interleave", name, nstock, depth))
+    bounds["interleave"] = {"names": IL_NAMES, "objects": {n: il_objects(n, il[0][0]) for n in IL_NAMES},
+                            "strings": {n: il_strings(n) for n in IL_NAMES},
+                            "(stock objects (0 = all), depth)": [list(x) for x in il],
+                            "histories": sum(sum((2 * len(il_objects(n, k))) ** j for j in range(1, d + 1))
+                                             for n in IL_NAMES for k, d in il)}
     bounds["wide_alphabet"] = WIDE
     bounds["double_edit_alphabet"] = NARROW if ctx.thorough else None
     bounds["targets"] = ["%s/%s%s" % (t.label, t.name, "*" if t.rep else "") for t in TARGETS]
@@ -488,12 +660,17 @@ def plan(ctx):
                  "every other distinct registered (function, raises) entry (marked * in bounds.targets); evaluations "
                  "counts these observations.  Non-trivial = the string is in the family's language (oracle; "
                  "implementation verdict for the oracle-less families) or is a seed/edit of a seed, i.e. a member or "
-                 "a near miss"),
+                 "a near miss.  strsub: every seed once more as a str-subclass instance.  interleave: per "
+                 "registered name every operation sequence of the stated depth over (checker object, conforming / "
+                 "non-conforming string), each leaf in its own forked child of a fresh interpreter, every step "
+                 "judged; evaluations counts every distinct prefix once"),
         "bounds": bounds,
         "assumptions": ["recognisers in mc/ref/formats.py are the grammar (self-tested on the RFC 4291 / RFC 3339 examples)",
                         "regex: the oracle is re.compile of the same interpreter",
                         "idn-email: only 'no @ => reject' is claimed; time, idn-hostname and unknown names: never-raises half only",
-                        "other-family formats see each string through one representative per distinct (function, raises) entry"],
+                        "other-family formats see each string through one representative per distinct (function, raises) entry",
+                        "interleave: a custom checker's language is what its registered function says; for the "
+                        "oracle-less families the stock language is what the registered function says when called directly"],
     }
 
 
@@ -507,11 +684,28 @@ def strings_of(unit, tier):
 
 
 def run_unit(unit, ctx):
+    if unit[0] == "interleave":
+        return run_interleave_unit(unit)
+    if unit[1] == "strsub":
+        return run_strsub(unit[0])
     prepare(ctx.tier)
     return run_strings(strings_of(unit, ctx.tier), unit[0], unit[1] in ("edit1", "edit2"))
 
 
 def replay(case, ctx):
+    if "interleave" in case:
+        steps = run_interleaved(case["interleave"], case["stock_objects"], case["ops"])
+        return {"reproduced": steps[-1][2] is not None, "steps": [[x[0], x[1]] for x in steps],
+                "problem": None if steps[-1][2] is None else steps[-1][2][0]}
+    if case.get("as") == "str-subclass":
+        for t in TARGETS:
+            if t.label == case["checker"] and t.name == case["format"]:
+                oc, kind = judge(t, StrSub(case["string"]))
+                plain = judge(t, case["string"])[0]
+                if kind is None and oc != plain:
+                    kind = "str-subclass-%s-but-str-%s" % (oc, plain)
+                return {"reproduced": kind == case["kind"], "outcome": oc, "problem": kind, "plain_str_outcome": plain}
+        return {"reproduced": False, "detail": "no such (checker, format) in this installation"}
     for t in TARGETS:
         if t.label == case["checker"] and t.name == case["format"]:
             oc, kind = judge(t, case["string"])
